@@ -36,8 +36,9 @@ class Frame:
 class IterSpec:
     """Abstract iterable: length (z3 Int term or None when unbounded) and element function."""
 
-    def __init__(self, length, elem, lazy=None, desc=""):
+    def __init__(self, length, elem, lazy=None, desc="", oneshot=False):
         self.length, self.elem, self.lazy, self.desc = length, elem, lazy, desc
+        self.oneshot = oneshot      # a Python iterator (generator, itertools object, zip ...): what one consumer takes is gone for the next
 
 
 class FuncRef:
@@ -1046,7 +1047,7 @@ class Engine:
             return mk_tuple(out, is_list=isinstance(node, ast.ListComp))
         spec = self.iterspec(src, fr)
         if gen.ifs:
-            raise Unsupported("filtered comprehension over a dynamic iterable")
+            return self.filtered_comprehension(node, gen, spec, fr)
         if D.has_impure_call(node.elt, tuple(self.reg.spec)):
             if lazy:
                 # lazy generator with effects: run by the consuming loop
@@ -1054,7 +1055,7 @@ class Engine:
 
                 def lazy_elem(i, fr2, _spec=spec, _gen=gen, _node=node):
                     return ("lazy", _spec, _gen, _node)
-                return SV("iter", IterSpec(spec.length, None, lazy=(spec, gen, node, env), desc="genexp"))
+                return SV("iter", IterSpec(spec.length, None, lazy=(spec, gen, node, env), desc="genexp", oneshot=True))
             raise Unsupported("comprehension with effects must be desugared to a loop")
         st = fr.st
         env0 = dict(st.env)
@@ -1066,12 +1067,77 @@ class Engine:
                 return _self.ev(node.elt, fr)
             finally:
                 fr.st.env = saved
-        return SV("iter", IterSpec(spec.length, elem, desc="comp"))
+        return SV("iter", IterSpec(spec.length, elem, desc="comp", oneshot=isinstance(node, ast.GeneratorExp)))
+
+    def filtered_comprehension(self, node, gen, spec, fr):
+        """[e(x) for x in S if p(x)] with pure e and p: a sequence R characterised exactly (Python's semantics of a filtered
+        comprehension): a strictly increasing position map pos from R's indices into S's, every selected element passes p and
+        R[k] == e(S[pos(k)]); every element of S that passes p is selected (witness sel).  No loop invariant needed."""
+        if spec.length is None or spec.elem is None:
+            raise Unsupported("filtered comprehension over an unbounded/lazy iterable")
+        if getattr(self, "_bound", None):
+            raise Unsupported("filtered comprehension under a quantifier")
+        if D.has_impure_call(node.elt, tuple(self.reg.spec)) or any(D.has_impure_call(c_, tuple(self.reg.spec)) for c_ in gen.ifs):
+            raise Unsupported("filtered comprehension with effects")
+        st = fr.st
+        env0 = dict(st.env)
+
+        def at(i):
+            saved = st_env_swap(fr.st, dict(env0))
+            try:
+                self.bind_target(gen.target, spec.elem(i), fr)
+                keep = z3.And(*[self.truth(self.ev(c_, fr), fr) for c_ in gen.ifs])
+                return keep, self.as_V(self.ev(node.elt, fr))
+            finally:
+                fr.st.env = saved
+        r = z3.Const(fresh_name("filt"), V)
+        pos = z3.Function(fresh_name("fpos"), z3.IntSort(), z3.IntSort())
+        sel = z3.Function(fresh_name("fsel"), z3.IntSort(), z3.IntSort())
+        n = z3.If(spec.length >= 0, spec.length, 0)
+        k, k2, i = z3.Int(fresh_name("k")), z3.Int(fresh_name("k")), z3.Int(fresh_name("i"))
+        self._bound = list(getattr(self, "_bound", [])) + [k]
+        try:
+            keep_k, val_k = at(pos(k))
+        finally:
+            self._bound = self._bound[:-1]
+        self._bound = list(getattr(self, "_bound", [])) + [i]
+        try:
+            keep_i, val_i = at(i)
+            src_i = self.as_V(spec.elem(i))
+        finally:
+            self._bound = self._bound[:-1]
+        st.assume(z3.And(T.is_VObj(r), T.tag(r) == T.TAG["tuple"], T.slen(r) >= 0, T.slen(r) <= n))
+        st.assume(z3.ForAll([k], z3.Implies(z3.And(0 <= k, k < T.slen(r)),
+                                            z3.And(0 <= pos(k), pos(k) < n, keep_k, T.sget(r, k) == val_k)), patterns=[T.sget(r, k)]))
+        st.assume(z3.ForAll([k, k2], z3.Implies(z3.And(0 <= k, k < k2, k2 < T.slen(r)), pos(k) < pos(k2)), patterns=[z3.MultiPattern(pos(k), pos(k2))]))
+        body_i = z3.Implies(z3.And(0 <= i, i < n, keep_i), z3.And(0 <= sel(i), sel(i) < T.slen(r), pos(sel(i)) == i, T.sget(r, sel(i)) == val_i))
+        try:
+            st.assume(z3.ForAll([i], body_i, patterns=[src_i if self._mentions(src_i, [i]) else sel(i)]))
+        except z3.Z3Exception:
+            st.assume(z3.ForAll([i], body_i, patterns=[sel(i)]))       # the source element is no admissible trigger (interpreted / conditional term)
+        self.note(f"filtered comprehension at line {getattr(node, 'lineno', '?')}: characterised exactly (order-preserving selection)")
+        return SV("V", r, meta={"seq": True, "filter": (pos, sel, spec)})
 
     # ------------------------------------------------------------------ iterables
     def iterspec(self, x, fr):
         if x.k == "iter":
-            return x.t
+            sp = x.t
+            if sp.oneshot and not fr.spec:
+                cons = fr.st.consumed
+                if id(sp) in cons:
+                    # iterated before along this path: only what the earlier consumer left is still there (an unknown suffix;
+                    # nothing when it ran to the end)
+                    if sp.elem is None or sp.length is None:
+                        raise Unsupported("lazy/unbounded iterator iterated a second time")
+                    off = z3.Int(fresh_name("taken"))
+                    n0 = z3.If(sp.length >= 0, sp.length, 0)
+                    fr.st.assume(z3.And(0 <= off, off <= n0))
+                    self.note(f"{fr.fn_key}: a one-shot iterator ({sp.desc}) is iterated a second time: only the unconsumed rest is seen")
+                    rest = IterSpec(n0 - off, lambda j, _sp=sp, _o=off: _sp.elem(j + _o), desc=sp.desc + "(rest)", oneshot=True)
+                    cons[id(rest)] = sp       # keeps `sp` alive: ids stay unique
+                    return rest
+                cons[id(sp)] = sp
+            return sp
         if x.k == "tuple":
             items = x.t
 
@@ -1089,6 +1155,8 @@ class Engine:
                 return IterSpec(T.slen(ks), lambda i: mk_V(T.sget(ks, i)), desc="keys")
             if coll == "seq" or (x.meta or {}).get("seq"):
                 return IterSpec(T.slen(t), lambda i: mk_V(T.sget(t, i)), desc="seq")
+            if z3.is_app(t) and t.decl().name() in ("astuple", "aslist", "snoc", "scat", "sslice", "sempty", "prod_of"):
+                return IterSpec(T.slen(t), lambda i: mk_V(T.sget(t, i)), desc="seq")       # a sequence by construction
             seqtag = z3.And(T.is_VObj(t), T.tag(t) == T.TAG["tuple"])
             maptag = z3.And(T.is_VObj(t), z3.Or(T.tag(t) == T.TAG["dict"], T.tag(t) == T.TAG["set"]))
             if self.entails(fr.st, seqtag, timeout=500):
@@ -1108,6 +1176,23 @@ class Engine:
             return self.iterspec(mk_V(self.as_V(x)), fr)
         raise Unsupported(f"iteration over {x.k}")
 
+    @staticmethod
+    def _mentions(term, consts):
+        ids = {c.get_id() for c in consts}
+        seen, stack = set(), [term]
+        while stack:
+            t = stack.pop()
+            if t.get_id() in seen:
+                continue
+            seen.add(t.get_id())
+            if t.get_id() in ids:
+                return True
+            if z3.is_quantifier(t):
+                stack.append(t.body())
+            elif z3.is_app(t):
+                stack.extend(t.children())
+        return False
+
     def materialize(self, x, fr):
         """iterator -> V sequence term with pointwise characterisation.  Inside a quantified context (the element
         function of an enclosing comprehension / quantifier is being evaluated under bound indices) the sequence is a
@@ -1118,11 +1203,6 @@ class Engine:
         if spec.length is None or spec.elem is None:
             raise Unsupported("cannot materialise unbounded/lazy iterator")
         bound = list(getattr(self, "_bound", []))
-        if bound:
-            F = z3.Function(fresh_name("seqf"), *[b.sort() for b in bound], V)
-            r = F(*bound)
-        else:
-            r = z3.Const(fresh_name("seq"), V)
         st = fr.st
         i = z3.Int(fresh_name("i"))
         self._bound = bound + [i]
@@ -1130,6 +1210,17 @@ class Engine:
             body = self.as_V(spec.elem(i))
         finally:
             self._bound = bound
+        if bound and not self._mentions(body, bound) and not self._mentions(spec.length, bound):
+            bound = []          # does not depend on the enclosing bound variables: one sequence, not a family
+        if bound:
+            F = z3.Function(fresh_name("seqf"), *[b.sort() for b in bound], V)
+            r = F(*bound)
+        else:
+            # the sequence is determined by its length and element terms (a tuple is its elements): two materialisations with
+            # syntactically the same definition are the same value and get the same name
+            import hashlib
+            canon = z3.substitute(body, (i, z3.Int("i#"))).sexpr() + "|" + spec.length.sexpr()
+            r = z3.Const("seq#" + hashlib.sha1(canon.encode()).hexdigest()[:12], V)
         facts = z3.And(T.is_VObj(r), T.tag(r) == T.TAG["tuple"], T.slen(r) == z3.If(spec.length >= 0, spec.length, 0), T.slen(r) >= 0)
         if z3.is_app(spec.length) and spec.length.decl().name() == "slen":
             facts = z3.And(facts, spec.length >= 0)      # instance of slen_nonneg, kept quantifier-free for path pruning
@@ -1149,6 +1240,7 @@ class Engine:
         st = fr.st
         if isinstance(target, ast.Name):
             st.env[target.id] = val
+            self.set_alias(st, target.id, None)
             return
         if isinstance(target, (ast.Tuple, ast.List)):
             n = len(target.elts)
@@ -1225,10 +1317,68 @@ class Engine:
             return
         raise Unsupported(f"assignment target {type(target).__name__}")
 
+    # -- frame of the parameters: which local names may denote the very object the caller passed
+    ALIAS = "$alias"
+
+    def set_alias(self, st, name, al):
+        cur = st.env.get(self.ALIAS)
+        if cur is None:
+            return
+        if not al and name not in cur.t:
+            return
+        m = dict(cur.t)
+        if al:
+            m[name] = list(al)
+        else:
+            m.pop(name, None)
+        st.env[self.ALIAS] = mk_py(m)
+
+    def alias_of(self, node, fr):
+        """[(condition, parameter)]: under `condition` the value of the expression IS the object passed for `parameter`
+        (identity, not equality).  Followed through plain names, `a or b` / `a and b` and conditional expressions."""
+        cur = fr.st.env.get(self.ALIAS)
+        if cur is None or not cur.t:
+            return []
+        if isinstance(node, ast.Name):
+            return list(cur.t.get(node.id, []))
+        if isinstance(node, ast.BoolOp):
+            if not any(self.alias_of(v, fr) for v in node.values):
+                return []
+            res, pre = [], z3.BoolVal(True)
+            for i, v in enumerate(node.values):
+                last = i == len(node.values) - 1
+                t = None if last else self.truth(self.ev(v, fr), fr)
+                taken = pre if last else z3.And(pre, t if isinstance(node.op, ast.Or) else z3.Not(t))
+                for c_, p_ in self.alias_of(v, fr):
+                    res.append((z3.simplify(z3.And(taken, c_)), p_))
+                if not last:
+                    pre = z3.And(pre, z3.Not(t) if isinstance(node.op, ast.Or) else t)
+            return res
+        if isinstance(node, ast.IfExp):
+            a, b = self.alias_of(node.body, fr), self.alias_of(node.orelse, fr)
+            if not a and not b:
+                return []
+            t = self.truth(self.ev(node.test, fr), fr)
+            return [(z3.simplify(z3.And(t, c_)), p_) for c_, p_ in a] + [(z3.simplify(z3.And(z3.Not(t), c_)), p_) for c_, p_ in b]
+        return []
+
+    def check_param_frame(self, node, fr):
+        """An in-place change of a container that is the caller's own argument object is visible to the caller: it is allowed
+        only for the parameters the contract declares as out-parameters."""
+        c = fr.contract
+        if c is None:
+            return
+        for cond, p_ in self.alias_of(node, fr):
+            if p_ in c.out_params:
+                continue
+            self.emit(fr.sub(spec=True), f"frame.argument_{p_}_not_changed_in_place", z3.Not(cond), kind="frame",
+                      line=getattr(node, "lineno", None))
+
     def store_back(self, node, val, fr):
         """In-place mutation of the object named by `node` is modelled by rebinding (values, not
         references; aliasing outside the listed patterns is unsupported)."""
         if isinstance(node, ast.Name):
+            self.check_param_frame(node, fr)
             fr.st.env[node.id] = val
             return
         if isinstance(node, ast.Attribute):
